@@ -48,7 +48,10 @@ ReformatFails(x) ==
                                   ELSE "oscillation")} ELSE {}
 
 RenderFails(d) ==
-  (IF Has(d, "spec_match") /\ d.spec_match = FALSE THEN {V("TOOL", "spec_mismatch")} ELSE {})
+  \* a generated tree must re-parse to itself: only checked when no comments were injected, and when the
+  \* case parsed at all (a comment can legitimately make a rendering unparseable: out of the domain)
+  (IF Has(d, "spec_match") /\ d.spec_match = FALSE /\ ~Has(d, "slot_ctx") THEN {V("TOOL", "spec_mismatch")} ELSE {}) \cup
+  (IF Has(d, "ntok") /\ Has(d, "meta") /\ Has(d.meta, "ntok") /\ d.ntok # d.meta.ntok THEN {V("TOOL", "ntok")} ELSE {})
 
 Report(e, fails) ==
   fails = {} \/ PrintT(<<"VERDICT", ToJson([idx |-> e.idx, id |-> e.id, variant |-> IF Has(e, "variant") THEN e.variant ELSE 0, fails |-> fails])>>)
